@@ -185,4 +185,52 @@ theorem decode_encodeListing (base : Nat) (hb : base < 2 ^ 32) (es : List DEnt) 
     decodeDir (es.length + 1) (encodeListing base es) = some es :=
   decode_encodeDir base hb es.length es (es.length + 1) (Nat.le_refl _) (Nat.lt_succ_self _) h
 
+/-- directory listing round trip with up to 11 stray bytes behind the listing: `parseDirectory`
+    stops when fewer than 12 bytes are left (go-diskfs' own `getDirectoryEntries` hands it the
+    inode's file_size, 3 bytes more than the listing is long) -/
+theorem decode_encodeDir_tail (base : Nat) (hb : base < 2 ^ 32) (t : Bytes) (ht : t.length < 12) :
+    ∀ (fe : Nat) (es : List DEnt) (fd : Nat), es.length ≤ fe → es.length < fd → (∀ e ∈ es, e.WF base) →
+      decodeDir fd (encodeDir base fe es ++ t) = some es := by
+  intro fe
+  induction fe with
+  | zero =>
+    intro es fd h1 h2 _
+    have : es = [] := List.length_eq_zero_iff.1 (by omega)
+    subst this
+    cases fd with
+    | zero => omega
+    | succ fd => simp [encodeDir, decodeDir, ht]
+  | succ fe ih =>
+    intro es fd h1 h2 hw
+    cases es with
+    | nil =>
+      cases fd with
+      | zero => omega
+      | succ fd => simp [encodeDir, decodeDir, ht]
+    | cons e r =>
+      cases fd with
+      | zero => omega
+      | succ fd =>
+        obtain ⟨gsb, gpre, glen⟩ := takeGroup_spec e.startBlock maxDirEntries (e :: r)
+        have gpos : 0 < (takeGroup e.startBlock maxDirEntries (e :: r)).length := takeGroup_head e r 255
+        generalize hg : takeGroup e.startBlock maxDirEntries (e :: r) = g at gsb gpre glen gpos
+        have hgw : ∀ x ∈ g, x.WF base ∧ x.startBlock = e.startBlock := by
+          intro x hx
+          refine ⟨hw x ?_, gsb x hx⟩
+          rw [← gpre]; exact List.mem_append_left _ hx
+        have hrestlen : ((e :: r).drop g.length).length ≤ fe := by
+          simp only [List.length_drop, List.length_cons] at *; omega
+        have hrestw : ∀ x ∈ (e :: r).drop g.length, x.WF base := fun x hx => hw x (List.mem_of_mem_drop hx)
+        have hrest := ih ((e :: r).drop g.length) fd hrestlen (by
+          simp only [List.length_drop, List.length_cons] at *; omega) hrestw
+        have hsb : e.startBlock < 2 ^ 32 := (hw e (List.mem_cons_self ..)).2.2.2.2.1
+        have hcnt : g.length - 1 < 2 ^ 32 := by simp only [maxDirEntries] at glen; omega
+        have hc1 : g.length - 1 + 1 = g.length := by omega
+        have hl : ¬ (4 + (4 + (4 + (((g.map (encodeDEnt base)).flatten).length +
+            ((encodeDir base fe ((e :: r).drop g.length)).length + t.length)))) < 12) := by omega
+        have hc3 : ¬ (g.length > maxDirEntries) := by omega
+        simp only [encodeDir, hg, decodeDir, List.append_assoc, List.length_append, leEnc_length, hl, if_false, split_leEnc,
+          e4 _ hcnt, e4 _ hsb, e4 _ hb, hc1, decode_encodeDEnts base e.startBlock g _ hgw, hrest, gpre]
+        rw [if_neg hc3]
+
 end Diskfs.Sqfs
